@@ -1,12 +1,130 @@
 /-
-  Oracle commands for C20 (stub: owns no commands yet).
+  Oracle commands for C20 (tokenizers).
+
+    bpe <add> <addBOS> <bos> <addEOS> <eos> <texthex>
+        <nsp> {<lithex> <runes> <id>}*                 specials (in SpecialVocabulary order) occurring in the text
+        <nfr> {<fraghex> <np> {<piecehex>}*}*          the real pre-tokenizer's split of every text fragment
+        <nv>  {<runes> <id>}*                          vocabulary entries for the substrings of the mapped pieces
+        <nm>  {<runesL> <runesR> <rank>}*              merge-table entries for adjacent substrings
+        -> ids=<i,j,..|-> dec=<hex|->   |  err:nosplit
+    spm <add> <addBOS> <bos> <addEOS> <eos> <textrunes>
+        <nsp> {<runes> <id>}*
+        <nv>  {<runes> <id> <scorekey>}*
+        -> ids=<..> dec=<hex|-|err>
+
+  <runes> = dot-separated decimal code points, `-` = empty.
+  The BPE variant flag (pinned 0x7e / repaired 0x7f) is NOT an input: it comes from the byte table
+  regenerated from the working tree (Generated/C20_ByteMap.lean).
 -/
+import OllamaVerif.Model.Tokenizer
+import OllamaVerif.Generated.C20_ByteMap
 import Oracle.Util
 namespace Oracle.C20
-open Oracle
+open Oracle OllamaVerif OllamaVerif.Tok
+
+def runes : TP Str := do
+  let t ← tok
+  if t == "-" then pure [] else
+  let parts := t.splitOn "."
+  let ns := parts.filterMap String.toNat?
+  if ns.length == parts.length then pure ns else failure
+
+def bytes : TP Str := do
+  let b ← hex
+  pure (b.map UInt8.toNat)
+
+def bool : TP Bool := do
+  let n ← nat
+  pure (n != 0)
+
+def pAdd : TP AddCfg := do
+  let a ← bool
+  let ab ← bool
+  let bos ← nat
+  let ae ← bool
+  let eos ← nat
+  pure ⟨a, ab, bos, ae, eos⟩
+
+def lookup {β} (l : List (Str × β)) (k : Str) : Option β :=
+  match l.find? (fun e => e.1 == k) with
+  | some e => some e.2
+  | none => none
+
+def mkVocab (ents : List (Str × Nat × Int)) (merges : List (Str × Str × Nat)) : Vocab where
+  tokId s := (lookup ents s).map (·.1)
+  tokStr id := match ents.find? (fun e => e.2.1 == id) with
+    | some e => e.1
+    | none => []
+  rank l r := match merges.find? (fun e => e.1 == l && e.2.1 == r) with
+    | some e => some e.2.2
+    | none => none
+  score id := match ents.find? (fun e => e.2.1 == id) with
+    | some e => e.2.2
+    | none => 0
+  size := 0
+
+def showIds (ids : List Nat) : String :=
+  if ids.isEmpty then "-" else joinWith "," (ids.map toString)
+
+def showBytes (bs : Str) : String := hexOrDash (bs.map UInt8.ofNat)
+
+def pBpe : TP String := do
+  let add ← pAdd
+  let text ← bytes
+  let specials ← listOf (do
+    let lit ← bytes
+    let rs ← runes
+    let id ← nat
+    pure (⟨lit, rs, id⟩ : Special))
+  let splits ← listOf (do
+    let fr ← bytes
+    let ps ← listOf bytes
+    pure (fr, ps))
+  let ents ← listOf (do
+    let rs ← runes
+    let id ← nat
+    pure (rs, id, (0 : Int)))
+  let merges ← listOf (do
+    let l ← runes
+    let r ← runes
+    let rk ← nat
+    pure (l, r, rk))
+  -- the special tokens' own strings are vocabulary entries too (needed by Decode)
+  let ents := ents ++ specials.map fun sp => (sp.runes, sp.id, (0 : Int))
+  let V := mkVocab ents merges
+  let frs := fragments specials text
+  let missing := frs.any fun fr => match fr with
+    | .text s => (lookup splits s).isNone
+    | .special _ => false
+  if missing then pure "err:nosplit" else
+  let split : Str → List Str := fun s => (lookup splits s).getD []
+  let ids := bpeEncode OllamaVerif.Generated.C20.pinned V split specials add text
+  pure s!"ids={showIds ids} dec={showBytes (bpeDecode V ids)}"
+
+def pSpm : TP String := do
+  let add ← pAdd
+  let text ← runes
+  let specials ← listOf (do
+    let rs ← runes
+    let id ← nat
+    pure (⟨rs, rs, id⟩ : Special))
+  let ents ← listOf (do
+    let rs ← runes
+    let id ← nat
+    let sc ← int
+    pure (rs, id, sc))
+  let ents := ents ++ specials.map fun sp => (sp.runes, sp.id, (0 : Int))
+  let V := mkVocab ents []
+  let ids := spmEncode V specials add text
+  let dec := match spmDecode V ids with
+    | some bs => showBytes bs
+    | none => "err"
+  pure s!"ids={showIds ids} dec={dec}"
 
 def handle (toks : List String) : Option String :=
   match toks with
+  | "bpe" :: rest => runTP pBpe rest
+  | "spm" :: rest => runTP pSpm rest
   | _ => none
 
 end Oracle.C20
